@@ -215,10 +215,10 @@ func runC03(w *World, r *Report) {
 	// 3b. deletion of a tentative vertex is followed by removal of its index entry
 	r.rule("delete-with-index", "every DeleteVertex(v) outside truncate is followed on all paths by removeTrxInVertex(v.Transaction.Hash)", 4)
 	for _, fn := range w.RepoFuncs("accountant") {
-		if fn.Name() == "truncate" {
-			continue
-		}
 		for _, d := range callsTo(fn, nDeleteVertex) {
+			if truncateOwns(w, d) {
+				continue
+			}
 			_, a := callArgs(d)
 			vx, ok := vertexOfHashArg(a[0])
 			key := shortFn(fn) + "/DeleteVertex"
@@ -365,20 +365,24 @@ func isParamOf(fn *ssa.Function, v ssa.Value) bool {
 // which stays live). Any other caller would leave a vertex in both the live DAG and checkpoint storage.
 func storageWriters(w *World, r *Report, rule string) {
 	r.rule(rule, "saveVertexToStorage is called only from the callback of truncate's funds/save walk (so exactly the vertices the deletion walk removes are checkpointed: none is both live and stored)", 1)
-	tr := w.Func("accountant", "AccountingBook", "truncate")
+	m := truncateModel(w)
 	var walkCb *ssa.Function
-	if tr != nil {
-		walks := callsTo(tr, cn("accountant", "*AccountingBook", "performOnAncestorWalker"))
-		if len(walks) == 3 {
-			_, a := callArgs(walks[1])
-			walkCb = closureOf(a[2])
+	if m.save != nil {
+		walkCb = m.save.cb
+	}
+	// a named callback must have no other use than being the save walk's callback
+	onlyCallback := true
+	if walkCb != nil && walkCb.Parent() == nil {
+		if len(staticCallers(w, walkCb)) > 0 {
+			onlyCallback = false
 		}
 	}
 	n := 0
 	for _, fn := range w.RepoFuncs("accountant") {
 		for _, c := range callsTo(fn, cn("accountant", "*AccountingBook", "saveVertexToStorage")) {
 			n++
-			r.check(walkCb != nil && fn == walkCb, rule, shortFn(fn)+"/saveVertexToStorage", lineOf(w, c), "vertices are written to checkpoint storage only by the truncation walk callback", "called from "+shortFn(fn))
+			inCb := walkCb != nil && (fn == walkCb || (walkCb.Parent() == nil && len(cbCalls(walkCb, func(x ssa.CallInstruction) bool { return x == c })) > 0))
+			r.check(inCb && onlyCallback, rule, shortFn(fn)+"/saveVertexToStorage", lineOf(w, c), "vertices are written to checkpoint storage only by the truncation walk callback", "called from "+shortFn(fn))
 		}
 	}
 	if n == 0 {
